@@ -2556,6 +2556,46 @@ def _parse_simple_lines(
     button_callbacks = ctx.setdefault("button_callbacks", {})
     button_poll_names = ctx.setdefault("button_poll_names", set())
 
+    pending_arg_temps: List[object] = []
+
+    def _evaluate_once(arg_src: str, c_expr: str) -> str:
+        """Python evaluates a call argument exactly once, before the call.
+
+        The emitted code of a device method may mention its argument several
+        times (and after it has already changed the device's state), so an
+        argument that calls something - a sensor read, a getter, a helper - is
+        stored in a temporary first.
+        """
+
+        try:
+            expr_ast = ast.parse(arg_src.strip(), mode="eval").body
+        except Exception:
+            return c_expr
+        has_call = any(
+            isinstance(node, ast.Call)
+            and not (isinstance(node.func, ast.Name) and node.func.id in _PURE_BUILTINS)
+            for node in ast.walk(expr_ast)
+        )
+        if not has_call:
+            return c_expr
+        label = _infer_expr_type(
+            expr_ast,
+            var_types,
+            ctx.setdefault("functions", {}),
+            ctx.setdefault("function_param_types", {}),
+            ctx.setdefault("function_param_orders", {}),
+            ctx,
+        )
+        if label not in {"int", "float", "bool"}:
+            return c_expr
+        cpp_type = _cpp_type(label)
+        temp_name = f"__redu_arg_{ctx.setdefault('tmp_counter', 0)}"
+        ctx["tmp_counter"] = ctx.get("tmp_counter", 0) + 1
+        pending_arg_temps.append(
+            VarDecl(name=temp_name, c_type=cpp_type, expr=c_expr, global_scope=False)
+        )
+        return temp_name
+
     def _resolve_numeric_arg(arg_src: Optional[str], default: Union[int, str]) -> Union[int, str]:
         if arg_src is None or not arg_src.strip():
             return default
@@ -2573,7 +2613,7 @@ def _parse_simple_lines(
                     return 1 if value else 0
                 if isinstance(value, (int, float)):
                     return int(value)
-        return _to_c_expr(arg_src, vars, ctx)
+        return _evaluate_once(arg_src, _to_c_expr(arg_src, vars, ctx))
 
     def _resolve_float_arg(
         arg_src: Optional[str], default: Union[float, int, str]
@@ -2594,7 +2634,7 @@ def _parse_simple_lines(
                     return 1.0 if value else 0.0
                 if isinstance(value, (int, float)):
                     return float(value)
-        return _to_c_expr(arg_src, vars, ctx)
+        return _evaluate_once(arg_src, _to_c_expr(arg_src, vars, ctx))
 
     def _resolve_optional_numeric_arg(
         arg_src: Optional[str],
@@ -2618,7 +2658,7 @@ def _parse_simple_lines(
                     return 1 if value else 0
                 if isinstance(value, (int, float)):
                     return int(value)
-        return _to_c_expr(text, vars, ctx)
+        return _evaluate_once(text, _to_c_expr(text, vars, ctx))
 
     def _resolve_bool_arg(arg_src: Optional[str], default: bool) -> Union[bool, str]:
         if arg_src is None or not arg_src.strip():
@@ -2680,8 +2720,18 @@ def _parse_simple_lines(
             )
         return value
 
+    line_start = 0
+
+    def _flush_arg_temps() -> None:
+        # the temporaries of a statement's arguments go in front of that statement
+        if pending_arg_temps:
+            body[line_start:line_start] = pending_arg_temps
+            del pending_arg_temps[:]
+
     i = 0
     while i < len(snippet):
+        _flush_arg_temps()
+        line_start = len(body)
         raw = snippet[i]
         stripped = _strip_inline_comment(raw)
         line = stripped.strip()
@@ -4599,6 +4649,7 @@ def _parse_simple_lines(
         _verif_note_ignored(scope, depth, line, "unknown")
         i += 1
 
+    _flush_arg_temps()
     return body
 
 
